@@ -140,6 +140,14 @@ def gen_scan(r, nbuild):
             ops.append("put 1 %s %d %s 0 %d" % (G.H(k), c, G.H(G.gen_value(r, big=False)), G.gen_level(r)))
         else:
             ops.append("del 1 %s %d" % (G.H(k), c))
+    # sibling databases created / destroyed after the records exist (their headers neighbour this one in the chain)
+    if r.random() < 0.6:
+        ops.append("db 2 %d" % r.choice(G.FLAG_COMBOS))
+        if r.random() < 0.5:
+            ops.append("db 3 %d" % r.choice(G.FLAG_COMBOS))
+            ops.append("dbdestroy 2")
+        if r.random() < 0.3:
+            ops += ["close", "open %d 0 0" % r.randrange(2), "db 1 %d" % fl]
     ops.append("cur 0 open 1 bf")
     for _ in range(len(pool) + 2):
         ops += ["cur 0 to next", "cur 0 get"]
